@@ -17,17 +17,30 @@ def run(ctx):
     if ctx.differential("c01", n, nontrivial=nt, driver="drv_c01") is not None:
         c01.floors(ctx, "c01", {"functions": n * 9 // 10, "outcome:ok": n // 2, "bound_functions": n // 2,
                                 "bound_input_output_pairs": 5 * n, "compile:ok": n // 6, "outcome:err_nonphysical": n // 200,
-                                "outcome:err_highbyte": n // 200})
+                                "outcome:err_highbyte": n // 200,
+                                # author-written restricted registers (SP views, K0) next to virtual registers, and plain
+                                # register-to-register moves by the class of their sides — counted on BOUND functions only
+                                "bound:virt_next_to_restricted_instrs": n // 8, "bound:regmove_virt_restricted": n // 10,
+                                "bound:fgen_regmove_virt_restricted": n // 25, "bound:fgen_virt_next_to_restricted_instrs": n // 16,
+                                "bound:regmove_virt_phys": n // 10, "bound:regmove_virt_virt": n // 25,
+                                "bound:rcopy_functions": n // 16, "rcopy_kind:k": n // 100, "rcopy:from": n // 50,
+                                "rcopy:into": n // 100, "rcopy:both": n // 100, "rcopy:interf": n // 100})
         c01.ceilings(ctx, "c01", {"cfg_rejected": n // 50, "liveness_error": 0})
         c01.exact_model_info(ctx)
     ctx.coverage["rule"] = (
         "same generated functions as C01 (incl. ones exceeding 15 GP / 32 vector / 7 mask registers, 8H-heavy ones, gather/scatter forms "
-        "with vector index registers, four-operand forms). accept-bind (sound: theorem checkBind_sound ⇒ statement BoundOK ∧ Unreserved): "
+        "with vector index registers, four-operand forms; author-written RESTRICTED registers — SP in its 64/32/16/8-bit views, K0 — as "
+        "operands and address registers of any opcode next to virtual registers; plain register-to-register moves MOVB/MOVW/MOVL/MOVQ/KMOVx/"
+        "MOVOU/VMOVDQU between a virtual register and a restricted / other physical / virtual register in both directions; and the idioms "
+        "'a virtual register is a copy of SP / K0' and 'is copied into SP / K0' with and without interference, under pressure below, at and "
+        "above the register file — all with sample floors counted on successfully BOUND functions). accept-bind (sound: theorem checkBind_sound ⇒ statement BoundOK ∧ Unreserved): "
         "every register found after BindRegisters in the OPERANDS, the declared INPUTS and the declared OUTPUTS of every instruction — "
         "enumerated by the harness's own traversal of the operand values (register operands; base and index of memory operands), not by "
         "Instruction.Registers()/operand.Registers — is physical; an author-chosen or implicit physical register is unchanged; every "
         "occurrence of a virtual is the view of the ONE physical id the allocation assigns to it, same mask (8L stays 8L, 8H stays 8H), "
-        "same class as the virtual, a row of the regenerated register file that is not Restricted, 8H only on index 0..3. accept-regs: "
+        "same class as the virtual, a row of the regenerated register file that is not Restricted (hence, theorem checkBindOne_in_colour_set, "
+        "a member of the unrestricted candidate set of the virtual's kind) and — whatever the flags say — not general-purpose register 4 "
+        "(the stack pointer) nor opmask 0 (K0) by the hardware numbering of its id, 8H only on index 0..3. accept-regs: "
         "Instruction.Registers() (what AllocateRegisters and VerifyAllocation look at) is exactly that traversal. accept-enc: no high-byte "
         "register in an instruction that needs REX after allocation. 'An error instead of emitting code': an `ok` outcome is judged by the "
         "acceptors (so 'ok with an invalid assignment' is a violation); an error outcome is always acceptable to the property, WHICH error "
